@@ -607,30 +607,34 @@ Proof. unfold deq, dist_red; cbn. repeat split; apply Qred_correct. Qed.
 
 (* ------------------------------------------------------------------ *)
 (* verified checkers used by the tie: the implementation's floats, converted exactly to Q,
-   are tested against the property and against the exact model *)
+   are tested against the property and against the exact model.  The absolute tolerance t on the sum and
+   on Pr(I) is 2^-50 for all models except biased-Y-X (2^-44: sqrt closed forms, conditioning ~ 1/bias) *)
 Definition tol_abs : Q := 1 # (2 ^ 50).          (* 2^-50 *)
+Definition tol_abs_yx : Q := 1 # (2 ^ 44).       (* 2^-44 *)
 Definition tol_rel : Q := 1 # 1000000000.        (* 1e-9 *)
 Definition tol_tiny : Q := 1 # (2 ^ 1070).       (* subnormal floor *)
-Definition valid_dist (p : Q) (d : dist) : bool :=
+Definition valid_dist_tol (t p : Q) (d : dist) : bool :=
   Qle_bool 0 (dI d) && Qle_bool 0 (dX d) && Qle_bool 0 (dY d) && Qle_bool 0 (dZ d)
-  && Qle_bool (Qabs (total d - 1)) tol_abs && Qle_bool (Qabs (dI d - (1 - p))) tol_abs.
-Theorem valid_dist_sound p d : valid_dist p d = true ->
-  nonneg d /\ Qabs (total d - 1) <= tol_abs /\ Qabs (dI d - (1 - p)) <= tol_abs.
+  && Qle_bool (Qabs (total d - 1)) t && Qle_bool (Qabs (dI d - (1 - p))) t.
+Definition valid_dist := valid_dist_tol tol_abs.
+Theorem valid_dist_sound t p d : valid_dist_tol t p d = true ->
+  nonneg d /\ Qabs (total d - 1) <= t /\ Qabs (dI d - (1 - p)) <= t.
 Proof.
-  unfold valid_dist. rewrite !andb_true_iff. intros [[[[[A B] C] D] E] F].
+  unfold valid_dist_tol. rewrite !andb_true_iff. intros [[[[[A B] C] D] E] F].
   apply Qle_bool_imp_le in A, B, C, D, E, F. unfold nonneg. tauto.
 Qed.
 Definition close_entry (p impl model : Q) : bool :=
   Qle_bool (Qabs (impl - model)) (tol_rel * Qabs model + tol_abs * p + tol_tiny).
-Definition close_dist (p : Q) (impl model : dist) : bool :=
-  Qle_bool (Qabs (dI impl - dI model)) tol_abs
+Definition close_dist_tol (t p : Q) (impl model : dist) : bool :=
+  Qle_bool (Qabs (dI impl - dI model)) t
   && close_entry p (dX impl) (dX model) && close_entry p (dY impl) (dY model) && close_entry p (dZ impl) (dZ model).
-Theorem close_dist_sound p impl model : close_dist p impl model = true ->
-  Qabs (dI impl - dI model) <= tol_abs /\
+Definition close_dist := close_dist_tol tol_abs.
+Theorem close_dist_sound t p impl model : close_dist_tol t p impl model = true ->
+  Qabs (dI impl - dI model) <= t /\
   Qabs (dX impl - dX model) <= tol_rel * Qabs (dX model) + tol_abs * p + tol_tiny /\
   Qabs (dY impl - dY model) <= tol_rel * Qabs (dY model) + tol_abs * p + tol_tiny /\
   Qabs (dZ impl - dZ model) <= tol_rel * Qabs (dZ model) + tol_abs * p + tol_tiny.
 Proof.
-  unfold close_dist, close_entry. rewrite !andb_true_iff. intros [[[A B] C] D].
+  unfold close_dist_tol, close_entry. rewrite !andb_true_iff. intros [[[A B] C] D].
   apply Qle_bool_imp_le in A, B, C, D. tauto.
 Qed.
